@@ -79,9 +79,13 @@ def set_epoch_rule(rep: Report, R, E: str, clause: str):
             rep.decide(ok, "G8.set_epoch", fi, "argument", f"argument is the epoch counter '{E}'",
                        f"argument {ast.unparse(c.args[0]) if c.args else '?'} is not the epoch counter '{E}' itself",
                        line=R.line(n), clause=clause)
+            # (the header test of a loop around the epochs - 'while True' / 'while not finished' - is not a guard of the call:
+            # inside the loop body it holds by construction)
             guards = [(t_, lab) for t_, lab in cfg.control_predicates(n)
                       if cfg.nodes[t_].kind == "test" and t_ not in has_tests
-                      and not (isinstance(cfg.nodes[t_].ast, ast.Constant))]
+                      and not (isinstance(cfg.nodes[t_].ast, ast.Constant))
+                      and not (isinstance(cfg.nodes[t_].owner, ast.While) and n in cfg.nodes_inside(cfg.nodes[t_].owner.body)
+                               and I in cfg.nodes_inside(cfg.nodes[t_].owner.body))]
             rep.decide(not guards, "G8.set_epoch", fi, "unconditional",
                        "guarded only by hasattr(main_sampler, 'set_epoch')",
                        "additionally guarded by " + ", ".join(
@@ -246,6 +250,16 @@ def run(prog: Program, rep: Report, tier: str):
              "interleaved passes, on every path from the update to the next main index; each budget is compared with "
              "the counter of its own unit (epochs=epoch, updates=update with == or >=; samples with >=)")
     rets = [n for n, nd in cfg.nodes.items() if nd.kind == "stmt" and isinstance(nd.ast, ast.Return) and in_main_body(n)]
+    # 'while not finished: ... finished = True; break' - the run also ends where the flag of the enclosing loop is raised
+    stop_flags = set()
+    for t_, nd_ in cfg.nodes.items():
+        if nd_.kind == "test" and isinstance(nd_.owner, ast.While) and I in cfg.nodes_inside(nd_.owner.body):
+            tt = R.term_at(t_)
+            if tt[0] == "not" and tt[1][0] == "var" and "." not in tt[1][1]:
+                stop_flags.add(tt[1][1])
+    flag_stops = [n for n, var, val in fa.stores() if var in stop_flags and val is not None and in_main_body(n)
+                  and fa.sym.term(val, n) == ("const", True)]
+    rets += flag_stops
     rep.require(rets, "anchor-missing: return inside the main loop of _training_loop")
     # one stopping test with a disjunction, or one test per budget (guard clauses, nested ifs): the stop condition of a
     # return is the conjunction of its guards inside the update block; guards that only say 'an earlier return was not
@@ -379,6 +393,8 @@ def run(prog: Program, rep: Report, tier: str):
             bn = cfg.stmt_node.get(b)
             if bn is None:
                 continue
+            if flag_stops and set(cfg.g.predecessors(bn)) <= set(flag_stops):
+                continue  # 'finished = True; break': the end of the run, judged by the budget rule
             nt = R.nearest_test(bn)
             c = (R.term_at(nt[0]) if nt[1] else negate(R.term_at(nt[0]))) if nt else None
             pr = split_eq(c[1]) if c and c[0] == "eq" else None
